@@ -133,3 +133,37 @@ Proof.
       * intros sigma sp0 q H. rewrite Hsame in H. left. exact H.
       * intros Hp. congruence.
 Qed.
+
+(* ------------------------------------------------------------------ a stream leaves the pool in the middle of handleSubscribe *)
+(* The race "stream [victim] is removed from the pool while the Subscribe handler of [sid] sits between the
+   recording of the interest and pool.AddTagsCtx" (lock-region model [handle_sub_mid]) leaves exactly the
+   registered interest of: the Subscribe, then the victim's removal.  In particular nobody else's interest is
+   touched — whichever patterns the victim shared with other streams. *)
+Theorem has_sub_mid : forall c s sid victim space pats, Inv s ->
+  let s' := fst (handle_sub_mid c s sid victim space pats) in
+  forall sigma sp0 q,
+    has s' sigma sp0 q = has (fst (handle_sub c s sid space pats)) sigma sp0 q && negb (N.eqb sigma victim).
+Proof.
+  intros c s sid victim space pats HI. cbv zeta. intros sigma sp0 q.
+  rewrite (proj1 (mid_state c s sid victim space pats HI)).
+  rewrite has_pool_remove by (apply inv_mid_pre; exact HI). unfold mid_pre.
+  destruct (mid_self c s sid victim space pats) eqn:Em; [|reflexivity].
+  unfold mid_self in Em. apply andb_true_iff in Em. destruct Em as [Em _]. apply andb_true_iff in Em. destruct Em as [Ev _].
+  apply N.eqb_eq in Ev. subst victim.
+  rewrite has_unsub by (apply inv_sub; exact HI).
+  destruct (N.eqb sigma sid); cbn [andb negb]; [rewrite !andb_false_r; reflexivity|rewrite !andb_true_r; reflexivity].
+Qed.
+
+(* the subscribing stream itself is the one that leaves: nothing is registered, its own interest is withdrawn,
+   everybody else's registered interest is exactly what it was *)
+Corollary has_sub_mid_self : forall c s sid space pats, Inv s ->
+  forall sigma sp0 q,
+    has (fst (handle_sub_mid c s sid sid space pats)) sigma sp0 q = has s sigma sp0 q && negb (N.eqb sigma sid).
+Proof.
+  intros c s sid space pats HI sigma sp0 q. rewrite (has_sub_mid c s sid sid space pats HI).
+  destruct (N.eqb sigma sid) eqn:E; cbn [negb]; [rewrite !andb_false_r; reflexivity|]. rewrite !andb_true_r.
+  apply N.eqb_neq in E. destruct (has_sub c s sid space pats HI) as (H1 & H2 & _).
+  apply bool_ext. split; intros H.
+  - destruct (H2 _ _ _ H) as [H0|(H0 & _)]; [exact H0|congruence].
+  - apply H1. exact H.
+Qed.
